@@ -9,6 +9,14 @@ CHECKS = {
          "Every one of the 191,491,529 representable dates is enumerated in chronological order on every run and all forms, the four constructors and the successor relation are compared with an independent calendar; constructor argument grids (years MIN-2..MAX+2 x month 0..15 x day 0..35, ordinal 0..370, week 0..55 x 7) are enumerated completely, the full-i32/u32 argument space is sampled with edge bias; thorough adds all 2^32 day numbers. Exhaustive for the date domain, sampled for extreme arguments.",
          "Trusted base: the ~150-line reference calendar in harness/src/refmodel/cal.rs (self-checked against fixed anchors) and rustc integer arithmetic.",
          "DESIGN.md section 3 C01"),
+ "C06": ("proptest (edge-biased i128 model values, limit-straddling operand pairs) differential against exact i128 arithmetic, range invariant on every returned value",
+         "Every constructor, accessor, checked/operator arithmetic form, Sum, std conversion and the Display text of TimeDelta is compared with exact i128 nanosecond arithmetic on millions of generated cases per run, with generators that aim operands at the range limits, at unit-constructor limits and at products that straddle the limit; every returned duration is re-read and must lie in the closed range. Sampled, not exhaustive.",
+         "Trusted base: i128 arithmetic in the harness (harness/src/props/c06.rs); TimeDelta values are observed only through num_seconds/subsec_nanos, whose mutual consistency is itself checked.",
+         "DESIGN.md section 3 C06"),
+ "C19": ("exhaustive enumeration (7 weekdays, 12 months, 128x128 sets, 128x7x128 iteration interleavings, all name/letter-case masks, all integers in +/-70000 and 2^k neighbourhoods) + proptest integers/strings, against modular arithmetic and a bit/deque set model",
+         "The finite part (cycles, numbering, all pairs of weekday sets, every front/back interleaving of every set from every start day, every letter-case variant, prefix and one-letter extension of every name) is enumerated completely on every run; numeric conversions are checked for every FromPrimitive entry point on enumerated neighbourhoods and random i64/u64 values biased to values congruent to valid numbers modulo 2^8/2^16/2^32; strings by mutation and arbitrary Unicode including case-folding look-alikes.",
+         "Trusted base: literal name tables and modular arithmetic in harness/src/props/c19.rs.",
+         "DESIGN.md section 3 C19"),
 }
 NOT_YET = "check not yet built in this revision of /verif (planned, see DESIGN.md section 3)"
 
